@@ -175,6 +175,7 @@ func runOne(t *testing.T, prop string, index, seed uint64, tape *simrt.Tape, mod
 	if w == nil {
 		panic("no world for " + prop)
 	}
+	simrt.ResetPools() // every run starts like a fresh process as far as recycled objects go
 	dir := filepath.Join(baseDir, "run")
 	os.RemoveAll(dir)
 	if err := os.MkdirAll(dir, 0o755); err != nil {
